@@ -106,6 +106,13 @@ class SymV(object):
 
     def flag(self, name):
         """a boolean decided by forking (concrete True/False on each path)"""
+        pf = self.opts.get('pin_flag')
+        if pf and name in pf:
+            v = bool(pf[name])
+            self._ctx.vars[name] = ('bool', z3.BoolVal(v))
+            self._ctx.order.append(name)
+            self._proxies[name] = v
+            return v
         return bool(self.bool(name))
 
     def bytes(self, name, n):
